@@ -63,6 +63,11 @@ def w_family(ctx, rng, idx):
         if fam == 'Bspline':  # stay away from knots, where the spline is only C^(degree-1)
             while np.min(np.abs(np.asarray(f.knots) - t[index])) < 2e-3:
                 t[index] = rng.uniform(lo, hi)
+        if fam != 'Bspline' and rng.random() < 0.15:
+            # integer-typed points (grid data): the derivative at such a point is still a real number
+            t = rng.integers(-2, 3, size=dim)
+            if lo > -2 or hi < 2:
+                t[index] = int(np.clip(t[index], np.ceil(lo), np.floor(hi)))
         t0 = t.copy()
         # the operations in random order (the very first call on a freshly built object may be any of them: objects built
         # without `dimension` learn it lazily from their first argument)
